@@ -3,8 +3,9 @@
 
   A. receivers on refused / absent headers: nothing released, an error, no key touched;
   B. what a front end makes of header bytes (`FrontEncHeader`, `FrontSigHeader`:
-     `Wire`'s typed view of the generic parse OR go-codec's typed decode of the
-     same bytes, map-shaped and leniently decoded headers included);
+     go-codec's typed decode of the bytes — map-shaped and leniently decoded
+     headers included — OR, only where that is unmodelled, `Wire`'s typed view of
+     the generic parse);
   C. go-codec's typed decode of CANONICAL header bytes of any family
      (`[format name, [major, minor], mode, …]`) returns that mode and version,
      whatever else the header carries and whichever header struct it is decoded
@@ -103,14 +104,14 @@ theorem det_verifyDetached_no_header (P : Prims) (valid : Validator) (kr : Keyri
 /-! ## B. what a front end makes of header bytes -/
 
 /-- `h` is what a front end makes of the header bytes `hb` decoded into the
-    encryption-family header struct: the typed view of the generic parse
-    (`Wire`), or go-codec's typed decode (`Codec`: array form, map form keyed by
-    codec names, nil, lenient field encodings) -/
+    encryption-family header struct: go-codec's typed decode (`Codec`: array form,
+    map form keyed by codec names, nil, lenient field encodings), or — the fallback —
+    the typed view of the generic parse (`Wire`) -/
 def FrontEncHeader (hb : Bytes) (h : EncHeader) : Prop :=
-  Wire.decodeHeader viewEncHeader hb = .ok (.ok hb h) ∨ ∃ r, Codec.decEncHeader hb = .ok (h, r)
+  (∃ r, Codec.decEncHeader hb = .ok (h, r)) ∨ Wire.decodeHeader viewEncHeader hb = .ok (.ok hb h)
 
 def FrontSigHeader (hb : Bytes) (h : SigHeader) : Prop :=
-  Wire.decodeHeader viewSigHeader hb = .ok (.ok hb h) ∨ ∃ r, Codec.decSigHeader hb = .ok (h, r)
+  (∃ r, Codec.decSigHeader hb = .ok (h, r)) ∨ Wire.decodeHeader viewSigHeader hb = .ok (.ok hb h)
 
 theorem codec_readHeader_decoded {η : Type} (dec : Dec η) (msg hb rest : Bytes) (h : η)
     (hs : Codec.readHeader dec msg = .ok (.ok hb h, rest)) : ∃ r, dec hb = .ok (h, r) := by
@@ -156,31 +157,28 @@ theorem codec_splitDetached_header_decoded (msg hb : Bytes) (h : SigHeader) (d :
 
 theorem readEnc_header (msg hb : Bytes) (h : EncHeader) (ps : PStream EncBlock)
     (hrd : Front.readEnc msg = .ok (.ok hb h, ps)) : FrontEncHeader hb h := by
-  rcases orCodec_ok hrd with hw | ⟨_, _, hc⟩
-  · exact Or.inl (split_header_decoded _ _ msg hb h ps hw)
-  · exact Or.inr (codec_split_header_decoded _ _ msg hb h ps hc)
+  rcases orWire_ok hrd with hc | ⟨_, _, hw⟩
+  · exact Or.inl (codec_split_header_decoded _ _ msg hb h ps hc)
+  · exact Or.inr (split_header_decoded _ _ msg hb h ps hw)
 
 theorem readSigncrypt_header (msg hb : Bytes) (h : EncHeader) (ps : PStream SigncryptBlock)
     (hrd : Front.readSigncrypt msg = .ok (.ok hb h, ps)) : FrontEncHeader hb h := by
-  rcases orCodec_ok hrd with hw | ⟨_, _, hc⟩
-  · exact Or.inl (split_header_decoded _ _ msg hb h ps hw)
-  · exact Or.inr (codec_split_header_decoded _ _ msg hb h ps hc)
+  rcases orWire_ok hrd with hc | ⟨_, _, hw⟩
+  · exact Or.inl (codec_split_header_decoded _ _ msg hb h ps hc)
+  · exact Or.inr (split_header_decoded _ _ msg hb h ps hw)
 
 theorem readSig_header (msg hb : Bytes) (h : SigHeader) (ps : PStream SigBlock)
     (hrd : Front.readSig msg = .ok (.ok hb h, ps)) : FrontSigHeader hb h := by
-  rcases orCodec_ok hrd with hw | ⟨_, _, hc⟩
-  · exact Or.inl (split_header_decoded _ _ msg hb h ps hw)
-  · exact Or.inr (codec_split_header_decoded _ _ msg hb h ps hc)
+  rcases orWire_ok hrd with hc | ⟨_, _, hw⟩
+  · exact Or.inl (codec_split_header_decoded _ _ msg hb h ps hc)
+  · exact Or.inr (split_header_decoded _ _ msg hb h ps hw)
 
 theorem readDetached_header (sigMsg hb : Bytes) (h : SigHeader) (sr : Sign.SigRead)
     (hrd : Front.readDetached sigMsg = .ok (.ok hb h, sr)) : FrontSigHeader hb h := by
-  rcases orCodec_ok hrd with hw | ⟨_, _, hc⟩
-  · exact Or.inl (splitDetached_header_decoded sigMsg hb h sr hw)
-  · split at hc
-    · rename_i hr d hsd
-      cases hc
-      exact Or.inr (codec_splitDetached_header_decoded sigMsg hb h d hsd)
-    · cases hc
+  rcases orWire_ok hrd with hc | ⟨_, _, hw⟩
+  · obtain ⟨d, hsd, _⟩ := codecDetached_ok hc
+    exact Or.inl (codec_splitDetached_header_decoded sigMsg hb h d hsd)
+  · exact Or.inr (splitDetached_header_decoded sigMsg hb h sr hw)
 
 /-! ## C. go-codec's typed decode of canonical header bytes keeps mode and version -/
 
@@ -344,21 +342,21 @@ theorem decSigHeader_tag (hb : Bytes) (m : Int) (ver : Version) (hc : CanonHeade
     canonical header bytes carries the mode and version those bytes announce -/
 theorem frontEncHeader_tag (hb : Bytes) (m : Int) (ver : Version) (hc : CanonHeaderBytes hb m ver)
     (h' : EncHeader) (hf : FrontEncHeader hb h') : (h'.typ, h'.version) = (m, ver) := by
-  rcases hf with hw | ⟨r, hd⟩
+  rcases hf with ⟨r, hd⟩ | hw
+  · obtain ⟨a, b⟩ := decEncHeader_tag hb m ver hc h' r hd
+    rw [a, b]
   · have ht := (decodeHeader_enc_tag _ _ _ hw).2
     rw [canonHeaderBytes_tag hc] at ht
     exact (Option.some.inj ht).symm
-  · obtain ⟨a, b⟩ := decEncHeader_tag hb m ver hc h' r hd
-    rw [a, b]
 
 theorem frontSigHeader_tag (hb : Bytes) (m : Int) (ver : Version) (hc : CanonHeaderBytes hb m ver)
     (h' : SigHeader) (hf : FrontSigHeader hb h') : (h'.typ, h'.version) = (m, ver) := by
-  rcases hf with hw | ⟨r, hd⟩
+  rcases hf with ⟨r, hd⟩ | hw
+  · obtain ⟨a, b⟩ := decSigHeader_tag hb m ver hc h' r hd
+    rw [a, b]
   · have ht := (decodeHeader_sig_tag _ _ _ hw).2
     rw [canonHeaderBytes_tag hc] at ht
     exact (Option.some.inj ht).symm
-  · obtain ⟨a, b⟩ := decSigHeader_tag hb m ver hc h' r hd
-    rw [a, b]
 
 /-! ### honest senders write canonical header bytes -/
 
